@@ -85,7 +85,7 @@ def quick_scenarios(rng):
         # HTTP/2 over TLS -> h2c: concurrent streams, padding, small windows, pauses
         scn("h2", "h2", 4, "data", w(), "data", w(), pad=rng.choice([0, 9]), win=rng.choice([65535, 20000]), chunk=rng.choice([16375, 16384]), seed=s()),
         scn("h2", "h2", 2, "data", 0, "data", 0, seed=s()),
-        # regression of ec88c70: streams attached one by one while the h2c backend is late with its SETTINGS
+        # regression of 28dc0cf: streams attached one by one while the h2c backend is late with its SETTINGS
         scn("h2", "h2", 4, "data", 1000, "data", 1000, chunk=16375, stagger=1, bset_delay=30, seed=s()),
         # the TLS front's write path under pressure: the client announces a huge window, stops reading after 1000 bytes
         # and resumes only when the backend is persistently stuck (sozu's rustls + socket buffers are full by then)
@@ -125,7 +125,7 @@ def quick_scenarios(rng):
         scn("h1", "h2", 2, rng.choice(["cl", "chunked"]), 20000, "data", 30000, chunk=1000, sep_end=1, seed=s()),
         scn("h2", "h2", 3, "data", 20000, "data", 30000, chunk=1000, sep_end=1, seed=s()),
         # responses of an h2c backend that carry no DATA payload, END_STREAM on the HEADERS frame or on an empty DATA
-        # frame of its own (witnesses of the fixes 29b5d33, 16bca1e, 9ae482c): `content-length: 0` + empty DATA,
+        # frame of its own (witnesses of the fixes f3d4877, 3aea978, ead842e): `content-length: 0` + empty DATA,
         # HEAD answered with the length of the GET body, 204 / 304 (the 304 may declare a length), then the same
         # connection goes on (keep-alive HTTP/1.1 client, further H2 streams)
         scn("h2", "h2", 1, "data", 100, "datacl", 0, step=0, chunk=1000, seed=s()),
@@ -134,16 +134,16 @@ def quick_scenarios(rng):
         scn("h1", "h2", 3, "none", 0, "s204", 0, sep_end=rng.choice([0, 1]), seed=s()),
         scn(rng.choice(["h1", "h2"]), "h2", 3, "none", 0, "s304", rng.choice([0, 700]), sep_end=rng.choice([0, 1]), seed=s()),
         # interim responses are forwarded, once, and the final response follows: 100 Continue from an h2c backend
-        # (witness of db80a2d), 103 sent in the same write as the final response by either kind of backend (the
-        # HTTP/1.1 one is the witness of 4ad6153)
+        # (witness of 25b0ff2), 103 sent in the same write as the final response by either kind of backend (the
+        # HTTP/1.1 one is the witness of 67e7290)
         scn("h1", "h2", 2, "clexp", 20000, "datacl", 3000, seed=s()),
         scn(rng.choice(["h1", "h2"]), "h2", 3, rng.choice(["none", "cl"]), 5000, "datacl", 3000, interim=103, seed=s()),
         scn("h1", "h1", 3, "none", 0, "cl", 3000, interim=103, seed=s()),
         scn("h2", "h1", rng.choice([1, 3]), "none", 0, rng.choice(["cl", "chunked"]), 3000, chunk=1000, interim=103, seed=s()),
-        # ... and the 103 in the same write as a response larger than the buffer: the first read fills the buffer (354ad67)
+        # ... and the 103 in the same write as a response larger than the buffer: the first read fills the buffer (12ed9e1)
         scn("h1", "h1", 2, "none", 0, rng.choice(["cl", "chunked", "close"]), 40000, chunk=1000, interim=103, seed=s()),
         # pipelined HTTP/1.1 requests toward an h2c backend whose answers end on an empty DATA frame after the body
-        # (or after `content-length: 0`) has been flushed: nothing but the writer itself can notice the end (0171dd8)
+        # (or after `content-length: 0`) has been flushed: nothing but the writer itself can notice the end (60e8790)
         scn("h1", "h2", 3, rng.choice(["none", "cl"]), 20000, "datacl", rng.choice([0, 50]), step=0, chunk=1000, stagger=2, sep_end=1, seed=s()),
         # an H2 request that declares its content-length, 0 included (then the END_STREAM comes on an empty DATA frame)
         scn("h2", rng.choice(["h1", "h2"]), 3, "datacl", rng.choice([0, 5000]), "cl", 100, step=0, chunk=1000, sep_end=rng.choice([0, 1]), seed=s()),
